@@ -801,9 +801,17 @@ func scenarios() [][]op {
 		}(),
 		// hand-over A -> B -> A inside one process while B moved one hour ahead: A's second SyncTimestamp must start from
 		// the stored window, not from anything A remembers
-		{{K: "Elect", M: 0}, {K: "Sync", M: 0}, {K: "Gen", M: 0, Count: 1}, {K: "ResetGroup", M: 0},
+		{{K: "Prefill", Count: 10500}, // more than ten thousand keys of other kinds sort before the window key
+			{K: "Elect", M: 0}, {K: "Sync", M: 0}, {K: "Gen", M: 0, Count: 1}, {K: "ResetGroup", M: 0},
 			{K: "Elect", M: 1}, {K: "Sync", M: 1}, {K: "Set", M: 1, TS: far(), Rel: "one-hour-ahead"}, {K: "Gen", M: 1, Count: 100}, {K: "Read"}, {K: "ResetGroup", M: 1},
 			{K: "Elect", M: 0}, {K: "Sync", M: 0}, {K: "State", M: 0}, {K: "Read"}, {K: "Gen", M: 0, Count: 5}, {K: "State", M: 0}, {K: "Read"}},
+		// requests that overflow the logical part again and again (each is retried): whatever the request path does about
+		// the overflow, the memory must stay below the stored window
+		{{K: "Elect", M: 0}, {K: "Sync", M: 0}, {K: "Read"},
+			{K: "Gen", M: 0, Count: 1<<18 + 5}, {K: "State", M: 0}, {K: "Read"}, {K: "Gen", M: 0, Count: 1<<18 + 5}, {K: "State", M: 0}, {K: "Read"},
+			{K: "Gen", M: 0, Count: 1<<18 + 5}, {K: "State", M: 0}, {K: "Read"}, {K: "Gen", M: 0, Count: 1<<18 + 5}, {K: "State", M: 0}, {K: "Read"},
+			{K: "Gen", M: 0, Count: 1<<18 + 5}, {K: "State", M: 0}, {K: "Read"}, {K: "Gen", M: 0, Count: 1}, {K: "State", M: 0}, {K: "Read"},
+			{K: "ResetGroup", M: 0}, {K: "Elect", M: 1}, {K: "Sync", M: 1}, {K: "Gen", M: 1, Count: 1}, {K: "Read"}},
 		// a reset into the last partial millisecond below the stored window, timestamps granted there, then a take-over by a
 		// member whose clock is still behind the window: the successor has to start above (the guard margins of the
 		// window checks and of SyncTimestamp cover the nanosecond -> millisecond truncation of granted timestamps)
@@ -1516,9 +1524,9 @@ func localBurstProbe(R *res.Result, prop string) {
 	}
 }
 
-// prefill writes 1100 keys that sort before "timestamp" under root (stores, regions, rules of a populated cluster).
-func prefill(admin *clientv3.Client, root string) {
-	for base := 0; base < 1100; base += 100 {
+// prefill writes n keys that sort before "timestamp" under root (stores, regions, rules of a populated cluster).
+func prefill(admin *clientv3.Client, root string, n int) {
+	for base := 0; base < n; base += 100 {
 		ops := make([]clientv3.Op, 0, 100)
 		for k := base; k < base+100; k++ {
 			ops = append(ops, clientv3.OpPut(fmt.Sprintf("%s/raft/s/%020d", root, k), "x"))
@@ -1621,8 +1629,11 @@ func main() {
 			}
 			for j := range ch {
 				root := fmt.Sprintf("/c01/%d/r", j.idx)
-				if j.idx%5 == 2 {
-					prefill(admin, root) // a populated cluster: more than a thousand keys of other kinds under the root path
+				if len(j.fixed) > 0 && j.fixed[0].K == "Prefill" {
+					prefill(admin, root, int(j.fixed[0].Count)) // a scenario that asks for a populated cluster of its own size
+					j.fixed = j.fixed[1:]
+				} else if j.idx%5 == 2 {
+					prefill(admin, root, 1100) // a populated cluster: more than a thousand keys of other kinds under the root path
 				}
 				c, ok, pan := runCase(e, admin, root, master.Fork(uint64(j.idx-nfixed)), j.fixed, 40)
 				if pan != "" {
